@@ -58,9 +58,15 @@ func posEq(in, out refjson.Pos, dims int) error {
 	if out.N != dims {
 		return fmt.Errorf("position has %d ordinates in the output, declared dimensionality %d", out.N, dims)
 	}
-	for i := 0; i < dims-2 && i < len(in.Extra); i++ {
-		if !sameF(in.Extra[i], out.Extra[i]) {
-			return fmt.Errorf("ordinate %d: %v became %v", i+2, in.Extra[i], out.Extra[i])
+	for i := 0; i < dims-2; i++ {
+		if i < len(in.Extra) {
+			if !sameF(in.Extra[i], out.Extra[i]) {
+				return fmt.Errorf("ordinate %d: %v became %v", i+2, in.Extra[i], out.Extra[i])
+			}
+		} else if i < len(out.Extra) && out.Extra[i] != 0 {
+			// the input position had no such ordinate: the output may only pad
+			// with a neutral zero, not with a value taken from somewhere else
+			return fmt.Errorf("ordinate %d: absent in the input, %v in the output", i+2, out.Extra[i])
 		}
 	}
 	return nil
@@ -449,7 +455,7 @@ func init() {
 	mon.Register(&mon.Prop{
 		ID:          "C06",
 		Rule:        "grammar-generated documents (all 9 types + Circle convention, nesting <= 5, 2-4-D and mixed-dimension positions, null ordinates in points, duplicate and escaped reserved members, foreign members of any JSON shape in any order, random whitespace, odd number spellings, geometries and collections straddling the index thresholds) under the default options and one of {simple points, rects, both, indexes off, index@1 R-tree, circle type disabled}; each accepted text is serialised, reparsed, reserialised, compared bytewise, probed with 14 objects in both operand orders, and compared with the reference reading of the input (type, every x,y bit for bit, z/m of the declared dimensionality, child order, ordered foreign members, properties on every Feature). Non-trivial = distinct accepted (text, options) with nested objects or foreign members.",
-		Assumptions: []string{"reference reader internal/refjson; foreign members are compared after decoding (key unescaped, value canonical with the source spelling of numbers)", "padded ordinates of positions shorter than the declared dimensionality are not asserted", "known finding F10: objects parsed as Circle keep only the circle convention"},
+		Assumptions: []string{"reference reader internal/refjson; foreign members are compared after decoding (key unescaped, value canonical with the source spelling of numbers)", "an ordinate that a position does not have in the input (position shorter than the declared dimensionality) must be padded with 0 in the output - any other value would be invented information", "known finding F10: objects parsed as Circle keep only the circle convention"},
 		Run:         c06Run,
 		Replay:      c06Replay,
 		MustSee:     []string{"accepted", "probe_hits"},
